@@ -7,7 +7,7 @@
 From Coq Require Import String List NArith ZArith Bool Permutation.
 From Fabio Require Import Lib.Outcome Lib.Bytes Model.WtF64 Model.TableCmd Model.RouteText
      Model.Weigh Model.WeighF Model.Ring Model.Pick Model.TableSwap Proofs.TableSwap.
-From Fabio Require Model.Lookup Model.Watch Model.ConsulSpec Proofs.Watch.
+From Fabio Require Model.Lookup Model.Watch Model.ConsulSpec Proofs.Watch Model.TcpDynamic Proofs.TcpDynamic.
 Import ListNotations.
 
 (* ============ (1) every lookup is answered from ONE complete installed table ============ *)
@@ -484,3 +484,45 @@ Theorem C02_total_nonvacuous :
   /\ fb_wit domain_text <> Panic.
 Proof. exact total_nonvacuous. Qed.
 Print Assumptions C02_total_nonvacuous.
+
+(* ---- the tcp-dynamic listener loop of main.startServers (round 8, seeded C02-P): a route text
+        decides which ports the process tries to listen on; a port it cannot have (another program's,
+        one of fabio's own listeners, a number that is no port) must not end the process ---- *)
+Theorem C02_tcpdyn_never_crashes : forall (h : list (Model.TcpDynamic.world * Model.TcpDynamic.habs)) d,
+  (forall w t, In (w, t) h -> Model.TcpDynamic.steady w) ->
+  Model.TcpDynamic.run_dyn h (Model.TcpDynamic.DRun d) <> Model.TcpDynamic.DCrashed.
+Proof. exact Proofs.TcpDynamic.tcpdyn_never_crashes. Qed.
+Print Assumptions C02_tcpdyn_never_crashes.
+
+Theorem C02_tcpdyn_never_crashes_nonvacuous :
+  (forall w t, In (w, t) Proofs.TcpDynamic.h_wit -> Model.TcpDynamic.steady w)
+  /\ map (fun s => match s with Model.TcpDynamic.DRun d => Some (Model.TcpDynamic.d_served d) | Model.TcpDynamic.DCrashed => None end)
+         (Model.TcpDynamic.trace_dyn Proofs.TcpDynamic.h_wit (Model.TcpDynamic.DRun (Model.TcpDynamic.Dyn [] [])))
+     = [Some [Proofs.TcpDynamic.p6000]; Some [Proofs.TcpDynamic.p6000]; Some [Proofs.TcpDynamic.p6000];
+        Some [Proofs.TcpDynamic.p6001; Proofs.TcpDynamic.p6000]; Some [Proofs.TcpDynamic.p6001]].
+Proof. exact Proofs.TcpDynamic.tcpdyn_never_crashes_nonvacuous. Qed.
+Print Assumptions C02_tcpdyn_never_crashes_nonvacuous.
+
+(* F-C02-11 (open): the proviso is needed.  A port that passes the probe and is taken when the
+   listener goroutine binds ends the process; on the real code this happens on every valid tcp
+   route when the listener is configured without refresh= (l.Refresh = 0: the next probe overtakes
+   the goroutine of the previous refresh, two goroutines bind the same port) *)
+Theorem C02_tcpdyn_unsteady_world_crashes :
+  exists w t d, (exists p, Model.TcpDynamic.probe_free w p = true /\ Model.TcpDynamic.listen_free w p = false)
+                /\ Model.TcpDynamic.refresh w t d = Model.TcpDynamic.DCrashed.
+Proof. exact Proofs.TcpDynamic.tcpdyn_unsteady_world_crashes. Qed.
+Print Assumptions C02_tcpdyn_unsteady_world_crashes.
+
+Theorem C02_tcpdyn_listeners_follow_table : forall w t d d', Model.TcpDynamic.refresh w t d = Model.TcpDynamic.DRun d' ->
+  Model.TcpDynamic.d_last d' = Model.TcpDynamic.ports_of t
+  /\ forall p, In p (Model.TcpDynamic.d_served d') <->
+               (In p (Model.TcpDynamic.d_served d)
+                /\ ~ (In p (Model.TcpDynamic.d_last d) /\ ~ In p (Model.TcpDynamic.ports_of t)))
+               \/ (In p (Model.TcpDynamic.ports_of t) /\ Model.TcpDynamic.probe_free w p = true).
+Proof. exact Proofs.TcpDynamic.tcpdyn_listeners_follow_table. Qed.
+Print Assumptions C02_tcpdyn_listeners_follow_table.
+
+Theorem C02_tcpdyn_refresh_idempotent : forall w t d d',
+  Model.TcpDynamic.refresh w t d = Model.TcpDynamic.DRun d' -> Model.TcpDynamic.refresh w t d' = Model.TcpDynamic.DRun d'.
+Proof. exact Proofs.TcpDynamic.tcpdyn_refresh_idempotent. Qed.
+Print Assumptions C02_tcpdyn_refresh_idempotent.
